@@ -352,6 +352,12 @@ def c05d(ctx):
                     continue
 
                 def is_level_of(e, tilevar, depth=3):
+                    if isinstance(e, ast.Subscript) and const_value(e.slice) == 2 and not unparse(e.value).endswith('.coord') and depth == 3:
+                        # the coordinate may have been read into a local first: judge the closed form
+                        try:
+                            e = fn.canon.expr(e)
+                        except Exception:       # noqa
+                            pass
                     if isinstance(e, ast.Subscript) and const_value(e.slice) == 2 and unparse(e.value).endswith('.coord'):
                         base = e.value.value
                         return tilevar is None or unparse(base) == tilevar
